@@ -389,6 +389,14 @@ class SSeq(Symbolic):
     def _deepcopy(self, it, memo):
         return SSeq(it.cx, self.ec, self.name + "'", self.length, self.arr, self.pytype)
 
+    def _havoc(self, cx):
+        # an arbitrary list (same object): used for a list a loop body appends to
+        self.length = z3.Int(cx.fresh_name(self.name + ".len"))
+        self.arr = z3.Const(cx.fresh_name(self.name + ".arr"), z3.ArraySort(z3.IntSort(), self.ec.sort))
+        self.mem = None
+        self._slices = {}
+        cx.assume(self.length >= 0)
+
     def _getattr(self, it, name, node=None):
         from .models import SymCallable
         if name == "append" and self.pytype is list:
